@@ -6,10 +6,8 @@
         the application writes sizes from SIZES (dot separated); ERRS=1 adds failing
         send()/recv() answers.  Answer:
         "states=N transitions=M quiescent=Q bad=B kf=K invbad=I truncated=0|1 [witness=TOKENS] ..."
-        bad = quiescent states outside the known-finding classes where c05_ok is false, plus
-              states quiescent up to workers inside the application where app_ok is false
-              (for send_bytes <= watermark, watermark >= 1),
-        kf  = quiescent states inside a class where c05_ok is false,
+        bad = quiescent states where c05_ok is false, plus states quiescent up to workers
+              inside the application where app_ok is false (kf is always 0 now),
         invbad = reachable states where inv_ok (Proof/ChanWakeInv.v) is false.
    trace LOOKAHEAD SB HW POLL2 NW MODE EV ...   (see below: alignment of a real trace)     *)
 open Model
@@ -39,7 +37,7 @@ let io_s = function
   | IoRcvApp (i, w) -> "RcvApp" ^ items_s i ^ b01 w | IoRcvAdd (i, w) -> "RcvAdd" ^ items_s i ^ b01 w
   | IoScA (i, w) -> "ScA" ^ items_s i ^ b01 w | IoSc1 (i, w) -> "Sc1" ^ items_s i ^ b01 w
   | IoScF (i, w) -> "ScF" ^ items_s i ^ b01 w | IoScRel (i, w) -> "ScRel" ^ items_s i ^ b01 w
-  | IoScX1 -> "ScX1" | IoScX2 -> "ScX2" | IoRcvRel w -> "RcvRel" ^ b01 w
+  | IoRcvRel w -> "RcvRel" ^ b01 w
   | IoHW1 -> "HW1" | IoHW2 -> "HW2" | IoHW2b -> "HW2b" | IoTry -> "Try"
   | IoFlL -> "FlL" | IoNfy -> "Nfy" | IoNfy2 -> "Nfy2" | IoRelL -> "RelL" | IoRelX -> "RelX" | IoSetWc -> "SetWc"
   | IoHW3 -> "HW3" | IoHW4 -> "HW4" | IoHW5 -> "HW5" | IoHW6 -> "HW6" | IoHW7 -> "HW7"
@@ -72,10 +70,10 @@ let shared_s (s : state) =
     (b01 s.closed) (b01 s.pulled) (ni s.queue)
 
 let state_s (s : state) =
-  Printf.sprintf "%s pend=%d p100=%s sc=%s qw=%s rx=%s gone=%s taint=%s io=%s ws=%s"
+  Printf.sprintf "%s pend=%d p100=%s sc=%s qw=%s rx=%s gone=%s io=%s ws=%s"
     (shared_s s) (zi s.pend) (b01 s.pend100) (b01 s.sentc)
     (String.concat "." (List.map (fun x -> si (ni x)) s.qwait))
-    (String.concat "," (List.map items_s s.rx)) (b01 s.gone) (b01 s.taint) (io_s s.io)
+    (String.concat "," (List.map items_s s.rx)) (b01 s.gone) (io_s s.io)
     (String.concat "," (List.map w_s s.ws))
 
 let sres_s = function SOk n -> "ok" ^ si (zi n) | SZero -> "z" | SDisc k -> "d" ^ b01 k | SErr -> "e"
@@ -128,15 +126,12 @@ let explore c nw maxsends sizes kinds maxstates errs =
     let (s, b, path) = Queue.pop q in
     if not (inv_ok c s) then begin
       incr invbad; if !iwit = "" then iwit := String.concat " " (List.rev path) ^ " => " ^ state_s s end;
-    if quiescent_app s && not (in_kf_class s) && not (app_ok c s) && zi c.hw >= 0 then begin
+    if quiescent_app s && not (app_ok c s) && zi c.hw >= 0 then begin
       incr bad; if !wit = "" then wit := "APP " ^ String.concat " " (List.rev path) ^ " => " ^ state_s s end;
     if quiescent s then begin
       incr quies;
       if not (c05_ok s) then begin
-        if in_kf_class s then (incr kf;
-          if s.taint && !twit = "" then twit := String.concat " " (List.rev path) ^ " => " ^ state_s s;
-          if !kwit = "" then kwit := String.concat " " (List.rev path))
-        else (incr bad; if !wit = "" then wit := String.concat " " (List.rev path) ^ " => " ^ state_s s)
+        (incr bad; if !wit = "" then wit := String.concat " " (List.rev path) ^ " => " ^ state_s s)
       end
     end;
     List.iter (fun ch ->
@@ -317,8 +312,8 @@ let trace c nw mode (evs : string list) : string =
         if not (eqf (String.split_on_char ',' m) (String.split_on_char ',' snap)) then raise (Mismatch (Printf.sprintf "ev=%d %s;%s state differs: model=%s real=%s || %s" k th lab m snap (state_s !st)))
       end) evs;
     let s = !st in
-    Printf.sprintf "OK fired=%d compared=%d quiescent=%s parked=%s c05=%s kf=%s taint=%s invchecked=%d invbad=%d pending=%d io=%s ws=%s" !fired !compared
-      (b01 (quiescent s)) (b01 (quiescent_parked s)) (b01 (c05_ok s)) (b01 (in_kf_class s)) (b01 s.taint) !invchecked !invbad (Hashtbl.length pending) (io_s s.io)
+    Printf.sprintf "OK fired=%d compared=%d quiescent=%s parked=%s c05=%s invchecked=%d invbad=%d pending=%d io=%s ws=%s" !fired !compared
+      (b01 (quiescent s)) (b01 (quiescent_parked s)) (b01 (c05_ok s)) !invchecked !invbad (Hashtbl.length pending) (io_s s.io)
       (String.concat "," (List.map w_s s.ws))
     ^ (if dump then " choices=" ^ String.concat "," (List.rev !fired_choices) else "")
   with Mismatch m -> "MISMATCH " ^ m
